@@ -929,12 +929,53 @@ fn cli_configurations(args: &Args, rep: &Reporter) -> J {
             }
         }
     }
+    // uses of the model plugin's directive in every shape the schema check lets through (and some it does not)
+    const MODEL_USES: [&str; 12] = [
+        "type User @model(type: \"U\") { id: ID! name: String }",
+        "type User @model(type: null) { id: ID! name: String }",
+        "type User @model { id: ID! name: String }",
+        "type User @model(type: 1) { id: ID! name: String }",
+        "type User { id: ID! @model name: String }",
+        "type User { id: ID! @model(type: \"X\") name: String @model(type: null) }",
+        "type User { id: ID! name: String }\nextend type User @model(type: null)",
+        "type User { id: ID! name: String }\nextend type User @model(type: \"U\") { age: Int @model }",
+        "type User @model(type: \"\") { id: ID! name: String }",
+        "type User @model(type: \"import('x').U\") @model(type: \"V\") { id: ID! name: String }",
+        "type User implements N @model(type: \"U\") { id: ID! @model name: String }\ninterface N @model(type: \"N\") { id: ID! @model }",
+        "type User { id: ID! name: String }\nenum model { A }\nscalar nitrogql_ts_type\nextend type User { m: model @model t: nitrogql_ts_type }",
+    ];
+    for (ui, user) in MODEL_USES.iter().enumerate() {
+        for resolvers in [false, true] {
+            for server in [false, true] {
+                for cmd in [&["check"][..], &["generate"][..]] {
+                    let mut y = String::from("schema: ./schema/*.graphql\ndocuments: ./src/*.graphql\nextensions:\n  nitrogql:\n    plugins: [\"nitrogql:model-plugin\"]\n    generate:\n      schemaOutput: ./gen/schema.d.ts\n");
+                    if resolvers {
+                        y.push_str("      resolversOutput: ./gen/resolvers.d.ts\n");
+                    }
+                    if server {
+                        y.push_str("      serverGraphqlOutput: ./gen/graphql.ts\n");
+                    }
+                    y.push_str(&format!("#@USER@{}\n", user.replace('\n', "\\n")));
+                    let mut a: Vec<String> = vec!["--config-file".into(), "graphql.config.yaml".into(), "--output-format".into(), "json".into()];
+                    a.extend(cmd.iter().map(|x| x.to_string()));
+                    cases.push((y, a, format!("model-use={ui} resolvers={resolvers} server={server} commands={cmd:?}")));
+                }
+            }
+        }
+    }
     let outcomes: Mutex<BTreeMap<String, u64>> = Mutex::new(BTreeMap::new());
     par_for(cases.len(), args.threads, |i| {
         let (y, a, tag) = &cases[i];
         let mut p = cli::Project::default();
+        // a case may carry its own definition of `User` (after the marker, which is a YAML comment)
+        let user = y.split_once("#@USER@").map(|x| x.1.trim_end().replace("\\n", "\n"));
+        let y = &y.split_once("#@USER@").map_or(y.clone(), |x| x.0.to_string());
         p.files.insert("graphql.config.yaml".into(), y.clone());
-        p.files.insert("schema/s.graphql".into(), "type Query { me: User }\ntype User { id: ID! name: String }\n".into());
+        if let Some(u) = &user {
+            p.files.insert("schema/s.graphql".into(), format!("type Query {{ me: User }}\n{u}\n"));
+        } else {
+            p.files.insert("schema/s.graphql".into(), "type Query { me: User }\ntype User { id: ID! name: String }\n".into());
+        }
         p.files.insert("src/q.graphql".into(), "query Q { me { id name } }\n".into());
         let dir = cli::thread_dir("c08");
         cli::materialize(&dir, &p);
